@@ -21,8 +21,10 @@ use std::time::{Duration, Instant};
 
 static MD: Metadata<'static> = Metadata::new("c18", Level::INFO, None);
 
-pub const ALLOW_POOL: [&str; 10] = ["10.1.2.3", "192.168.1.0/24", "10.0.0.0/8", "192.168.1.128/25", "::1", "fd00::/8", "172.16.5.4/32", "0.0.0.0/0", "2001:db8::5", "10.1.2.0/30"];
-pub const PEER_POOL: [&str; 16] = [
+// includes nested blocks that share a base address (10.0.0.0, 10.0.0.0/30, 10.0.0.0/8; 192.168.1.0/30 in /24; fd00::/64 in fd00::/8)
+pub const ALLOW_POOL: [&str; 14] = ["10.1.2.3", "192.168.1.0/24", "10.0.0.0/8", "192.168.1.128/25", "::1", "fd00::/8", "172.16.5.4/32", "0.0.0.0/0", "2001:db8::5", "10.1.2.0/30", "10.0.0.0/30", "10.0.0.0", "192.168.1.0/30", "fd00::/64"];
+pub const PEER_POOL: [&str; 22] = [
+    "10.0.0.0", "10.0.0.1", "10.0.0.4", "192.168.1.3", "192.168.1.4", "fd00:0:0:1::1",
     "10.1.2.3", "10.1.2.4", "10.1.2.2", "192.168.1.0", "192.168.1.255", "192.168.0.255", "192.168.2.0", "192.168.1.127", "192.168.1.128", "10.255.255.255", "11.0.0.0", "9.255.255.255", "::1", "fd00::1", "fe00::1", "2001:db8::5",
 ];
 const PATHS: [&str; 6] = ["/metrics", "/", "/health", "/healthz", "/metrics/../health", "/a/very/long/path/that/goes/on/and/on/and/on/and/on/and/on?with=query&and=more"];
